@@ -252,6 +252,9 @@ def construct_models_in_parallel(sample, chr_id, dump_filename, args, read_group
 
     transcript_stat_counter = EnumStats()
     io_support = IOSupport(args)
+    # known isoforms already reported are tracked per chromosome of one sample: start from a clean state, otherwise
+    # a worker that processed another sample before (e.g. --threads 1 with several experiments) suppresses them
+    GraphBasedModelConstructor.detected_known_isoforms = set()
     transcript_id_distributor = ExcludingIdDistributor(gffutils_db, chr_id)
     exon_id_storage = FeatureIdStorage(SimpleIDDistributor(), gffutils_db, chr_id, "exon")
 
